@@ -3,7 +3,7 @@
    Claim ladder (DESIGN.md 9): rung 1 = the three structural decoders invert the specification encoders.
    Rung 1 is complete with Proofs/ObjStmProofs.v (objstm_expand). *)
 From LV Require Import Base.Bytes Base.Sx Model.Obj Model.Writer Model.Parser Model.Xref Spec.XrefSpec
-  Proofs.LexProofs Proofs.XrefProofs Proofs.XrefTableProofs.
+  Model.ObjStm Proofs.LexProofs Proofs.XrefProofs Proofs.XrefTableProofs Proofs.ObjStmProofs.
 Local Open Scope N_scope.
 
 (* (1) Cross-reference streams.  For ALL field widths (0 = field absent, any positive width, not all three
@@ -62,6 +62,25 @@ Theorem C02_xref_table_any_sectioning :
     POk {| x_type := XTTable; x_entries := spec_map (numbered (tsections_plain secs)); x_size := 0 |} (space rest).
 Proof. exact xref_table_any_sectioning. Qed.
 
+
+(* (3) Object streams.  For any list of (object number, white-space before the pair, white-space between the
+   two numbers, text of the object) packed as the standard says (N pairs "number offset" then the objects,
+   offsets counted from First), with any one-byte index separators (NUL HT LF VT FF CR SP; at least one between
+   numbers), any white-space after the index: if every object's text, followed by the texts after it, parses
+   to the object it denotes (the object round trip -- c14's object_rt supplies it for lopdf's spelling, rung 2
+   for the others), then ObjectStream::new returns exactly these objects under generation 0.  N only has to
+   be an integer (lopdf uses it for a warning). *)
+Theorem C02_objstm_expand :
+  forall (denote : ositem -> obj) (hdr_end : bytes) (items : list ositem) (d : dict) (n : Z),
+    items <> [] -> Forall item_ok items -> items_rt denote items -> later_ws1 (tl items) ->
+    forallb sep_byte hdr_end = true ->
+    N.of_nat (length (flat_map oi_text items)) <= u32_max ->
+    dict_get d K_First = Some (OInt (Z.of_N (fst (os_payload items hdr_end)))) ->
+    dict_get d K_N = Some (OInt n) ->
+    objstm_plain d (snd (os_payload items hdr_end)) =
+    OsOk (fold_left (fun m it => insert m (oi_num it, 0) (denote it)) items []).
+Proof. exact objstm_expand. Qed.
+
 (* ---------- non-vacuity ---------- *)
 Definition ex_secs : xsections := [(0, [SFree 0 65535; SInUse 17 0]); (5, [SComp 3 1; SInUse 70000 2])].
 Definition ex_dict : dict :=
@@ -94,10 +113,36 @@ Proof.
   repeat constructor; cbn; unfold u32_max, two32; try lia; discriminate.
 Qed.
 
+
+Definition ex_items : list ositem :=
+  [{| oi_num := 12; oi_ws1 := []; oi_ws2 := [x20]; oi_text := bs "5 " |};
+   {| oi_num := 7; oi_ws1 := [x0a; x00]; oi_ws2 := [x09; x0c]; oi_text := bs "<</K[1 0 R(a)]>>" ++ [x0d] |};
+   {| oi_num := 9; oi_ws1 := [x20]; oi_ws2 := [x0d; x0a]; oi_text := bs "/N#20x " |}].
+Definition ex_denote (it : ositem) : obj :=
+  if oi_num it =? 12 then OInt 5
+  else if oi_num it =? 7 then ODict [(bs "K", OArr [ORef 1 0; OStr (bs "a") false])]
+  else OName (bs "N x").
+Definition ex_os_dict : dict :=
+  [(bs "Type", OName (bs "ObjStm")); (K_N, OInt 3); (K_First, OInt (Z.of_N (fst (os_payload ex_items [x0a]))))].
+
+Theorem C02_example_objstm :
+  Forall item_ok ex_items /\ items_rt ex_denote ex_items /\ later_ws1 (tl ex_items) /\
+  objstm_plain ex_os_dict (snd (os_payload ex_items [x0a])) =
+  OsOk [((7, 0), ODict [(bs "K", OArr [ORef 1 0; OStr (bs "a") false])]); ((9, 0), OName (bs "N x")); ((12, 0), OInt 5)].
+Proof.
+  split; [|split; [|split]].
+  - repeat constructor; try discriminate; cbn; unfold u32_max; lia.
+  - cbn [items_rt ex_items]. repeat split; vm_compute; reflexivity.
+  - cbn. repeat split; discriminate.
+  - vm_compute. reflexivity.
+Qed.
+
 Print Assumptions C02_xref_stream_any_W_Index.
 Print Assumptions C02_xref_stream_default_Index.
 Print Assumptions C02_table_lookup.
 Print Assumptions C02_table_lookup_none.
 Print Assumptions C02_xref_table_any_sectioning.
+Print Assumptions C02_objstm_expand.
 Print Assumptions C02_example_stream.
+Print Assumptions C02_example_objstm.
 Print Assumptions C02_example_table.
